@@ -48,6 +48,10 @@ claim("C13", "static analysis: who-may-write ownership of every package-level va
       "Decides that the library packages have no run-time writes to package-level state, that nothing the VM can reach without going through Compile writes a prototype, and that every channel payload passed the goroutine-safety check that refuses functions, userdata, threads and tables with metatables. It does not decide heap race freedom or delivery order (Go runtime).",
       BASE + "Exported configuration variables are set by the embedder before states run.", "DESIGN.md §3 C13")
 
+claim("C16", "static analysis: who-may-call ownership (one numeral reader: strconv/fmt scanning functions only in parseNumber, the explicit-base arm of tonumber and two allow-listed sites; disallowed constant argument base 0), error-arm-must-raise rule in the compiler, verb-set exclusion by path conditions (q never reaches fmt), table agreement of the strftime layouts with Go reference-time tokens and the C-locale meanings, writer/reader field-name agreement of os.date('*t') and os.time",
+      "Decides that every place that turns text into a number uses the same reader, that malformed numerals are compile errors, that %q is not rendered by Go's fmt, that every strftime layout is made of real layout tokens with the directive's C-locale meaning, and that os.date/os.time use the same field names, components and zone. It does not decide escape decoding, long brackets or shortest-round-trip printing (value properties).",
+      BASE + "C-locale strftime meanings and Go reference-time tokens written out in the checker.", "DESIGN.md §3 C16")
+
 for pid in ["C%02d" % i for i in range(2, 21)]:
     if pid not in P:
         na(pid, "check not built yet in this session (planned rules: DESIGN.md §3 %s); not claimed until its rules run clean" % pid)
